@@ -181,6 +181,13 @@ func misuses() []misuse {
 		}},
 		svcRule("path-and-query", []string{"bad_field"}, "/x/{bad_field}", 1, spec.F("bad_field", 1, spec.String).Q("bad_field")),
 		svcRule("get-unbound-field", []string{"bad_field"}, "/x/{id}", 1, spec.F("id", 1, spec.String), spec.F("bad_field", 2, spec.String)),
+		// the same path rules where the variable shares its segment with literal text
+		svcRule("path-var-no-field/inside-a-segment/suffix", []string{"nope"}, "/x/{nope}.json", 2, spec.F("id", 1, spec.String)),
+		svcRule("path-var-no-field/inside-a-segment/colon-verb", []string{"nope"}, "/x/{nope}:cancel", 2, spec.F("id", 1, spec.String)),
+		svcRule("path-var-no-field/inside-a-segment/prefix", []string{"nope"}, "/v{nope}/x", 2, spec.F("id", 1, spec.String)),
+		svcRule("path-var-message/inside-a-segment/suffix", []string{"bad_field"}, "/x/{bad_field}.json", 2, spec.FM("bad_field", 1, spec.Timestamp)),
+		svcRule("path-and-query/inside-a-segment/suffix", []string{"bad_field"}, "/x/{bad_field}.json", 1, spec.F("bad_field", 1, spec.String).Q("bad_field")),
+		svcRule("path-and-query/inside-a-segment/prefix", []string{"bad_field"}, "/v{bad_field}/x", 1, spec.F("bad_field", 1, spec.String).Q("bad_field")),
 		svcRule("delete-unbound-field", []string{"bad_field"}, "/x", 4, spec.F("bad_field", 2, spec.String)),
 	)
 	return out
@@ -534,12 +541,30 @@ func nearMisses() []nearMiss {
 		f := &spec.File{Path: strings.ReplaceAll(pkg, ".", "/") + ".proto", Package: pkg, GoImport: "lab/gen/c12near", GoName: "c12near"}
 		build(pkg, f)
 		root := f.Messages[len(f.Messages)-1].Name
-		f.Services = []*spec.Service{{Name: "NearService", Methods: []*spec.Method{{Name: "Call", In: "." + pkg + "." + root, Out: "." + pkg + "." + root, HTTP: &spec.HTTP{Path: "/near", Verb: 2}}}}}
+		if f.Services == nil {
+			f.Services = []*spec.Service{{Name: "NearService", Methods: []*spec.Method{{Name: "Call", In: "." + pkg + "." + root, Out: "." + pkg + "." + root, HTTP: &spec.HTTP{Path: "/near", Verb: 2}}}}}
+		}
 		out = append(out, nearMiss{id, f})
 	}
 	in := func(pkg, m string) string { return "." + pkg + "." + m }
 	varMsgs := func(f *spec.File) {
 		f.Messages = append(f.Messages, &spec.Message{Name: "VarA", Fields: []*spec.Field{spec.F("text", 1, spec.String)}}, &spec.Message{Name: "VarB", Fields: []*spec.Field{spec.F("num", 1, spec.Int32)}})
+	}
+	// a path variable that shares its segment with literal text is still a path variable: a GET/DELETE
+	// request whose only field is bound through it has no unbound field
+	for _, sh := range []struct{ id, path string }{{"suffix", "/reports/{report_id}.pdf"}, {"colon-verb", "/jobs/{report_id}:cancel"}, {"prefix", "/v{report_id}/files"}, {"two-in-one-segment", "/r/{report_id}-{rev}"}} {
+		sh := sh
+		for _, verb := range []int32{1, 4, 2} {
+			verb := verb
+			mk("path-variable-inside-a-segment/"+sh.id+"/"+spec.VerbName(verb), func(pkg string, f *spec.File) {
+				req := &spec.Message{Name: "ReportReq", Fields: []*spec.Field{spec.F("report_id", 1, spec.String)}}
+				if strings.Contains(sh.path, "{rev}") {
+					req.Fields = append(req.Fields, spec.F("rev", 2, spec.Int32))
+				}
+				f.Messages = []*spec.Message{{Name: "ReportResp", Fields: []*spec.Field{spec.F("ok", 1, spec.Bool)}}, req}
+				f.Services = []*spec.Service{{Name: "NearService", Methods: []*spec.Method{{Name: "Call", In: "." + pkg + ".ReportReq", Out: "." + pkg + ".ReportResp", HTTP: &spec.HTTP{Path: sh.path, Verb: verb}}}}}
+			})
+		}
 	}
 	mk("two-discriminated-oneofs/same-oneof_value-in-both", func(pkg string, f *spec.File) {
 		varMsgs(f)
